@@ -46,13 +46,13 @@ func checkMultisendHelper(c *core.Ctx) {
 			switch x := in.(type) {
 			case *ssa.MapUpdate:
 				if core.Path(x.Key) == "gasCoin" {
-					if call, ok := core.Unwrap(x.Value).(*ssa.Call); ok && core.CalleeName(&call.Call) == "(*math/big.Int).Set" && core.Path(call.Call.Args[1]) == "commission" {
+					if call, ok := core.Unwrap(x.Value).(*ssa.Call); ok && core.CalleeName(core.NormCall(&call.Call)) == "(*math/big.Int).Set" && core.Path(core.NormCall(&call.Call).Args[1]) == "commission" {
 						initGas = true
 					}
 				}
 			case *ssa.Call:
-				n := core.CalleeName(&x.Call)
-				if n == "(*math/big.Int).Add" && len(x.Call.Args) == 3 && strings.HasSuffix(core.Path(x.Call.Args[2]), ".Value") && strings.Contains(core.Path(x.Call.Args[2]), "items[") {
+				n := core.CalleeName(core.NormCall(&x.Call))
+				if n == "(*math/big.Int).Add" && len(core.NormCall(&x.Call).Args) == 3 && strings.HasSuffix(core.Path(core.NormCall(&x.Call).Args[2]), ".Value") && strings.Contains(core.Path(core.NormCall(&x.Call).Args[2]), "items[") {
 					accum = true
 				}
 			}
@@ -93,8 +93,8 @@ func checkSupply(c *core.Ctx, models []*RunModel) {
 					for _, f := range facts {
 						// CheckForCoinSupplyOverflow(coinModel, delta) == nil — and delta is the amount
 						// this path adds to the volume
-						if f.ReturnedOK(".CheckForCoinSupplyOverflow") && f.OutcomeOf != nil && len(f.OutcomeOf.Call.Args) == 2 {
-							delta := f.OutcomeOf.Call.Args[1]
+						if f.ReturnedOK(".CheckForCoinSupplyOverflow") && f.OutcomeOf != nil && len(core.NormCall(&f.OutcomeOf.Call).Args) == 2 {
+							delta := core.NormCall(&f.OutcomeOf.Call).Args[1]
 							amt := p.Resolve(amountArg)
 							delta, amt = stripCopy(delta), stripCopy(amt)
 							if core.Unwrap(delta) == core.Unwrap(amt) || core.SameValue(delta, amt) || core.SameValue(delta, stripCopy(amountArg)) {
@@ -172,19 +172,19 @@ func checkSupply(c *core.Ctx, models []*RunModel) {
 func stripCopy(v ssa.Value) ssa.Value {
 	for i := 0; i < 4; i++ {
 		call, ok := core.Unwrap(v).(*ssa.Call)
-		if !ok || core.CalleeName(&call.Call) != "(*math/big.Int).Set" || len(call.Call.Args) != 2 {
+		if !ok || core.CalleeName(core.NormCall(&call.Call)) != "(*math/big.Int).Set" || len(core.NormCall(&call.Call).Args) != 2 {
 			return v
 		}
-		switch r := core.Unwrap(call.Call.Args[0]).(type) {
+		switch r := core.Unwrap(core.NormCall(&call.Call).Args[0]).(type) {
 		case *ssa.Call:
-			if core.CalleeName(&r.Call) != "math/big.NewInt" {
+			if core.CalleeName(core.NormCall(&r.Call)) != "math/big.NewInt" {
 				return v
 			}
 		case *ssa.Alloc:
 		default:
 			return v
 		}
-		v = call.Call.Args[1]
+		v = core.NormCall(&call.Call).Args[1]
 	}
 	return v
 }
@@ -202,7 +202,7 @@ func isLiquidityVolume(s *core.Site) bool {
 		}
 		// big.NewInt(0).Set(liquidity) / Sub(liquidity, Bound)
 		if call, ok := o.(*ssa.Call); ok {
-			for _, a := range call.Call.Args {
+			for _, a := range core.NormCall(&call.Call).Args {
 				for _, oo := range core.Origins(a) {
 					if ex, ok := oo.(*ssa.Extract); ok {
 						if c2, ok := ex.Tuple.(*ssa.Call); ok && c2.Call.IsInvoke() && (c2.Call.Method.Name() == "PairMint" || c2.Call.Method.Name() == "PairCreate") {
